@@ -31,9 +31,12 @@ ASSUMPTIONS = [
   "an unparsed last layer must still hold the remainder as bytes in .raw or .next; byte-exact re-serialisation is not demanded here (C14)",
 ]
 EXHAUSTIVE_SCOPE = {
-  "quick": "reference corpus (one frame per protocol/message kind with a 6- and a 7-byte payload, ten of them also with 41 bytes): each frame itself, every truncation length, and the "
+  "quick": "reference corpus (one frame per protocol/message kind with a 6- and a 7-byte payload, ten of them also with 41 bytes, eleven with none): each frame itself, every truncation length, and the "
            "values {0, 0xff, b^1, b^0x80, b+1} at every byte offset; each of these faults once as is and once followed by a repair of all "
-           "checksums the reference dissector locates",
+           "checksums the reference dissector locates; every option/TLV/record slot the dissector locates (TCP and IPv4 options, "
+           "DHCP options, LLDP TLVs, ND options, IPv6 extension headers, IGMPv3 records, GRE source route entries) rewritten to every kind "
+           "POX parses (plus an unknown one) x length {0,1,2,3,exact,exact+1,max}, also with the input ending at the slot; every "
+           "demultiplexing field set to every value that selects a POX parser",
   "thorough": "as quick, plus all 256 values at every byte offset that the reference dissector attributes to a header (not to the innermost payload)",
 }
 
@@ -250,6 +253,131 @@ def enum_faults_repaired(tier):
     yield {"raw": c["raw"], "fix": True, "src": "repaired-" + c["src"]}
 
 
+# kinds POX has a parser (or a special case) for in each container, plus one it does not know
+_KINDS = {
+  "tcpopt": [0, 1, 2, 3, 4, 5, 8, 30, 254],
+  "ip4opt": [0, 1, 7, 68, 131, 137, 148, 254],
+  "dhcpopt": [0, 1, 3, 4, 6, 12, 15, 28, 43, 50, 51, 52, 53, 54, 55, 56, 58, 59, 255, 200],
+  "lldptlv": [0, 1, 2, 3, 4, 5, 6, 7, 8, 127, 9],
+  "ndopt": [1, 2, 3, 5, 0, 200],
+  "ext6": [0, 43, 44, 60, 6, 17, 58, 59, 253],
+  "igmprec": [0, 1, 4, 6, 255],
+  "gresre": [0, 0x0800, 0xffff],
+}
+
+
+def _slot_variants(container, f, off, size):
+  """[(label, [(offset, bytes), ...])]: kind x length rewrites of one option / TLV / record header"""
+  out = []
+  kinds = _KINDS[container]
+  if container == "lldptlv":
+    for k in kinds:
+      for ln in (0, 1, 2, 3, size - 2, size - 1, 511):
+        out.append(("%d/%d" % (k, ln), [(off, (((k & 0x7f) << 9) | (ln & 0x1ff)).to_bytes(2, "big"))]))
+    return out
+  if container == "gresre":
+    for k in kinds:
+      for ln in (0, 1, 2, 3, size - 4, size - 3, 255):
+        out.append(("%d/%d" % (k, ln), [(off, k.to_bytes(2, "big")), (off + 3, bytes([ln & 0xff]))]))
+    return out
+  if container == "igmprec":
+    for k in kinds:
+      for aux in (0, 1, 2, 3, 255):
+        out.append(("%d/aux%d" % (k, aux), [(off, bytes([k, aux]))]))
+      ns = (size - 8) // 4
+      for n in (0, 1, 2, 3, ns, ns + 1, 0xffff, 0x0100):
+        out.append(("%d/n%d" % (k, n), [(off, bytes([k])), (off + 2, (n & 0xffff).to_bytes(2, "big"))]))
+    return out
+  if container in ("ndopt", "ext6"):
+    unit = size // 8
+    exact = unit if container == "ndopt" else unit - 1
+    lens = (0, 1, 2, 3, exact, exact + 1, 255)
+  elif container == "dhcpopt":
+    lens = (0, 1, 2, 3, size - 2, size - 1, 255)
+  else:                      # tcpopt, ip4opt: the length octet counts the two header octets
+    lens = (0, 1, 2, 3, size, size + 1, 255)
+  for k in kinds:
+    for ln in lens:
+      out.append(("%d/%d" % (k, ln), [(off, bytes([k, ln & 0xff]))]))
+      if container == "tcpopt" and k == 30 and off + 2 < len(f):
+        for st in (0, 1, 2, 3, 4, 5, 6, 7, 15):
+          out.append(("30.%d/%d" % (st, ln), [(off, bytes([k, ln & 0xff, (st << 4) | (f[off + 2] & 0xf)]))]))
+  return out
+
+
+def _apply_edits(f, edits):
+  out = bytearray(f)
+  for o, bs in edits:
+    for i, v in enumerate(bs):
+      if o + i < len(out):
+        out[o + i] = v
+  return bytes(out)
+
+
+def enum_slots(tier):
+  """structure-aware exhaustive driver: every option / TLV / record slot the reference dissector locates in a corpus frame gets
+  every kind POX has a parser for (plus an unknown one) x length in {0,1,2,3,exact,exact+1,max}; each variant as is, with the
+  frame cut right behind the rewritten header (1..3 octets: the slot ends the input) and right behind the slot, and each of
+  those once more with all checksums repaired."""
+  for name, f in corpus():
+    d = P.dissect(f)
+    for container, off, size in d.slots:
+      for label, edits in _slot_variants(container, f, off, size):
+        m = _apply_edits(f, edits)
+        cuts = [None, off + size]
+        hdr_end = max(o + len(bs) for o, bs in edits)
+        if hdr_end < off + size:
+          cuts.append(hdr_end)
+        for cut in cuts:
+          raw = m if cut is None else m[:cut]
+          src = "slot:%s:%s:%s%s" % (container, name, label, "" if cut is None else ":cut")
+          yield {"raw": raw, "src": src}
+          yield {"raw": raw, "fix": True, "src": "repaired-" + src}
+
+
+_DEMUX = {
+  ("eth", "type"): list(P.POX_ETHERTYPES) + [0x88b5, 0, 3, 46, 1500, 1535],
+  ("vlan", "type"): list(P.POX_ETHERTYPES) + [0x88b5, 0, 46, 1500],
+  ("llc", "snap_type"): list(P.POX_ETHERTYPES) + [0x88b5, 0, 46],
+  ("ipv4", "proto"): [1, 2, 4, 6, 17, 41, 47, 253],
+  ("ipv6", "nh"): list(P.POX_NH6) + [1, 2, 47, 253],
+  ("icmp", "type"): [0, 3, 4, 5, 8, 11, 13, 255],
+  ("icmp6", "type"): [1, 2, 3, 4, 128, 129, 130, 133, 134, 135, 136, 137, 255],
+  ("udp", "sport"): list(P.UDP_APP_PORTS) + [0],
+  ("udp", "dport"): list(P.UDP_APP_PORTS) + [0],
+  ("gre", "ptype"): [0x0800, 0x6558, 0x86dd, 0],
+  ("gre", "flags"): [0, 0x8000, 0x4000, 0x2000, 0x1000, 0xb000, 0xf000, 0xffff, 0x0007],
+  ("eapol", "type"): [0, 1, 2, 3, 4, 255],
+  ("eap", "code"): [0, 1, 2, 3, 4, 255],
+  ("igmp", "type"): [0x11, 0x12, 0x16, 0x17, 0x22, 0],
+  ("dns", "qdcount"): [0, 1, 2, 0xffff], ("dns", "ancount"): [0, 1, 2, 0xffff],
+  ("dns", "nscount"): [0, 1, 0xffff], ("dns", "arcount"): [0, 1, 0xffff],
+  ("dhcp", "hlen"): [0, 6, 16, 17, 255], ("dhcp", "magic"): [0x63825363, 0],
+  ("tcp", "offres"): [0x00, 0x40, 0x50, 0x60, 0xa0, 0xf0, 0xff],
+  ("ipv4", "vhl"): [0x40, 0x44, 0x45, 0x46, 0x4f, 0x55, 0x65],
+  ("vxlan", "flags"): [0, 8, 0xff],
+}
+
+
+def enum_demux(tier):
+  """every demultiplexing / format-selecting field the dissector locates is set to every value that selects a POX parser
+  (plus ones that select none): any parser can be entered from any position of any corpus frame"""
+  for name, f in corpus():
+    d = P.dissect(f)
+    for li, proto, fname, off, size in d.fields():
+      vals = _DEMUX.get((proto, fname))
+      if not vals:
+        continue
+      cur = int.from_bytes(f[off:off + size], "big")
+      for v in vals:
+        if v == cur:
+          continue
+        raw = f[:off] + v.to_bytes(size, "big") + f[off + size:]
+        src = "demux:%s.%s:%s:%d" % (proto, fname, name, v)
+        yield {"raw": raw, "src": src}
+        yield {"raw": raw, "fix": True, "src": "repaired-" + src}
+
+
 def enum_all_values(tier):
   for name, f in corpus():
     if not (name.endswith("-6") or name.endswith("-41")):
@@ -387,11 +515,15 @@ def plan(tier):
     return [
       Enum("single-fault", lambda: enum_faults(tier), shards=16),
       Enum("single-fault-checksums-repaired", lambda: enum_faults_repaired(tier), shards=16),
+      Enum("option-tlv-slots", lambda: enum_slots(tier), shards=16),
+      Enum("demux-keys", lambda: enum_demux(tier), shards=4),
       Hyp("mutation", lambda: _strategy(tier), examples=6000, shards=16),
     ]
   return [
     Enum("single-fault", lambda: enum_faults(tier), shards=16),
     Enum("single-fault-checksums-repaired", lambda: enum_faults_repaired(tier), shards=16),
+    Enum("option-tlv-slots", lambda: enum_slots(tier), shards=16),
+    Enum("demux-keys", lambda: enum_demux(tier), shards=4),
     Enum("all-values-on-headers", lambda: enum_all_values(tier), shards=16),
     Hyp("mutation", lambda: _strategy(tier), examples=400000, shards=16),
   ] + _fuzz_drivers()
